@@ -2,12 +2,21 @@
    PROVED here: the census half — the three pruning passes remove only blocks
    that cannot be reached from the entry, no-op statements and blocks without
    instructions; every other instruction survives exactly once, in order.
-   NOT proved: the semantic half (interpreting the graph equals running the
-   function); it is decided by path-exhaustive differential execution of
-   generated programs (see the evidence file). *)
+   PROVED as well (Model/Src.v, SrcProof.v, SrcIdx.v): the semantic half for the
+   control skeleton — for EVERY program built from plain statements, pass,
+   return, break, continue, if/else, while/else and for/else (in its desugared
+   while-form), nested to any depth, for every meaning of the statements and
+   tests and every state: whenever the function returns or raises, interpreting
+   the graph the front-end model builds block by block returns or raises the same
+   way in the same state.  The graph is the UNPRUNED one; that pruning keeps the
+   meaning is covered by the census theorems above only as far as instructions
+   go.  NOT proved: operands of and/or (known finding K2), that the desugared
+   for-loop equals Python's for (known finding K3), diverging runs.  Those, and
+   the tie of the model to the code, are decided by the correspondence check and
+   by path-exhaustive differential execution (see the evidence file). *)
 From Coq Require Import List ZArith.
 Import ListNotations.
-From V Require Import Valid.Hier Model.Graph Model.Prune.
+From V Require Import Valid.Hier Model.Graph Model.Prune Model.Src Model.SrcProof Model.SrcIdx.
 
 Theorem C08_prune_unreachable :
   forall g entry g', prune_unreachable g entry = Some g' ->
@@ -41,3 +50,37 @@ Example C08_example :
           (4, mkA [] [3]); (3, mkA [(12, false)] []); (5, mkA [(13, false)] [3]) ] 0
   = Some [ (0, mkA [] [1]); (1, mkA [(10, false)] [1; 3]); (3, mkA [(12, false)] []) ].
 Proof. vm_compute. reflexivity. Qed.
+
+(* ---------- the semantic half, on the control skeleton ---------- *)
+Theorem C08_block_indices_distinct : forall body, NoDup (map b_idx (build body)).
+Proof. exact build_indices_distinct. Qed.
+Print Assumptions C08_block_indices_distinct.
+
+Theorem C08_graph_means_source :
+  forall (state : Type) (act : Z -> state -> option state) (test : Z -> state -> option (bool * state))
+         (body : stmts) (fuel : nat) (s : state) (o : outcome state),
+    exec state act test fuel body s = o ->
+    (exists a s', o = ORet a s') \/ (exists a, o = ORaise a) ->
+    exists fuel', run state act test (build body) fuel' 0 s = o.
+Proof.
+  intros state act test body fuel s o He Ho.
+  exact (front_end_correct state act test body fuel s o (build_indices_distinct body) He Ho).
+Qed.
+Print Assumptions C08_graph_means_source.
+
+(* non-vacuity: a state that records every statement and test executed, tests answered
+   from a decision list;   while c1: (if c2: break else: a3); a4   else: a5;   return r6 *)
+Definition tstate := (list Z * list bool)%type.
+Definition tact (a : Z) (s : tstate) : option tstate := Some (a :: fst s, snd s).
+Definition ttest (c : Z) (s : tstate) : option (bool * tstate) :=
+  match snd s with [] => None | d :: ds => Some (d, (c :: fst s, ds)) end.
+Definition prog1 : stmts :=
+  SCons (SWhile 1 (SCons (SIf 2 (SCons (SBreak 7) SNil) (SCons (SAct 3) SNil)) (SCons (SAct 4) SNil))
+                  (SCons (SAct 5) SNil))
+        (SCons (SRet 6) SNil).
+Example C08_skeleton_example :
+  exec tstate tact ttest 20 prog1 ([], [true; false; true; true]) = ORet 6 ([6; 2; 1; 4; 3; 2; 1], []) /\
+  run tstate tact ttest (build prog1) 20 0 ([], [true; false; true; true]) = ORet 6 ([6; 2; 1; 4; 3; 2; 1], []) /\
+  exec tstate tact ttest 20 prog1 ([], [true; false; false]) = ORet 6 ([6; 5; 1; 4; 3; 2; 1], []) /\
+  run tstate tact ttest (build prog1) 20 0 ([], [true; false; false]) = ORet 6 ([6; 5; 1; 4; 3; 2; 1], []).
+Proof. vm_compute. repeat split. Qed.
